@@ -170,9 +170,12 @@ def gen_history(rng):
     return steps, model
 
 
-def run_worker(steps, skip):
+def run_worker(steps, skip, hashseed=None):
+    # the order in which the shapes of a graph are evaluated is the iteration order of a python set: a fixed PYTHONHASHSEED makes a
+    # history replayable, several of them cover both orders of a two-shape graph
+    env = dict(os.environ, PYTHONHASHSEED=str(hashseed)) if hashseed is not None else None
     p = subprocess.run(["/venv/bin/python", os.path.join(os.path.dirname(os.path.dirname(os.path.abspath(__file__))), "hist_worker.py")], input=json.dumps({"steps": steps, "skip_calls_before_last": skip}).encode(),
-                       stdout=subprocess.PIPE, stderr=subprocess.PIPE, timeout=600)
+                       stdout=subprocess.PIPE, stderr=subprocess.PIPE, timeout=600, env=env)
     out = [json.loads(l) for l in p.stdout.decode().splitlines() if l.startswith("{")]
     return out, p.returncode, p.stderr.decode()[-600:]
 
@@ -188,7 +191,11 @@ def run(ctx, out):
                 "definitions, data fixes, graph object replacement); last call compared with a one-shot process; non-trivial = "
                 "distinct history with >=1 failing call or >=1 edit before the last call")
     hists = [gen_history(rng) for _ in range(n)]
-    hists += repaired_histories()
+    seeds = [None] * len(hists)
+    for hseed in (0, 1, 2, 3, 4, 5):          # the directed histories under six fixed hash seeds each
+        rep = repaired_histories()
+        hists += rep
+        seeds += [hseed] * len(rep)
     lines = []
     for k, (steps, model) in enumerate(hists):
         toks = []
@@ -197,8 +204,8 @@ def run(ctx, out):
         lines.append("c%d history %s" % (k, " ".join(" ".join(t.split()) for t in toks)))
     replies = ctx.driver.ask(lines)
     with ThreadPoolExecutor(max_workers=12) as ex:
-        longs = list(ex.map(lambda h: run_worker(h[0], False), hists))
-        shorts = list(ex.map(lambda h: run_worker(h[0], True), hists))
+        longs = list(ex.map(lambda hs: run_worker(hs[0][0], False, hs[1]), zip(hists, seeds)))
+        shorts = list(ex.map(lambda hs: run_worker(hs[0][0], True, hs[1]), zip(hists, seeds)))
     for k, (steps, model) in enumerate(hists):
         out.evaluations += 1
         labels = [s.get("label") for s in steps if s["op"] in ("validate", "rules")]
